@@ -33,6 +33,9 @@ type crashHist struct {
 	// real system (a file size); false: leave the template out
 	prepare func(c *core.Ctx, drv string, ch *crashHist) bool
 	noFlush bool // only the schedules that leave work in the log make sense
+	// nextFree > 0: the history runs in a data file whose allocation frontier
+	// has been moved there (just below or beyond 4 GiB; the file is sparse)
+	nextFree int64
 }
 
 func intv(i int64) proto.Val { return proto.Int(i) }
@@ -224,6 +227,11 @@ func buildCrashHist(c *core.Ctx, idx int) *crashHist {
 		// blank or ends in one, is a keyword, or is not ASCII
 		ch.db = []string{`".d1"`, `"my db"`, `"d1 "`, `"select"`, `"дб"`, `".hidden.db"`}[(idx/9)%6]
 	}
+	if idx%10 == 6 {
+		// page offsets that do not fit 32 bits: the frontier starts a few
+		// pages below 4 GiB (the history crosses it) or beyond it
+		ch.nextFree = []int64{1<<32 - 3*4096, 1<<32 - 4096, 1 << 32, 1<<32 + 7*4096, 1<<33 + 4096, 1<<32 - 12*4096}[(idx/10)%6]
+	}
 	n := r.Range(10, 60)
 	ch.noise = map[int]*proto.Stmt{}
 	ch.noiseQ = map[int]string{}
@@ -380,6 +388,9 @@ func crashPhase1(c *core.Ctx, drv, dir string, ch *crashHist, withImages bool, k
 		add(proto.Op{K: "sql", SQL: proto.Text("CREATE DATABASE " + other)}, meta{kind: "other"})
 	}
 	add(proto.Op{K: "sql", SQL: proto.Text("USE " + db)}, meta{kind: "other"})
+	if ch.nextFree > 0 {
+		add(proto.Op{K: "setnextfree", N: int(ch.nextFree)}, meta{kind: "other"})
+	}
 	for i, st := range ch.stmts {
 		if ch.timer && withImages && len(st.Rows) >= 1000 {
 			// the image of this boundary is taken by the flusher itself, at
@@ -474,6 +485,9 @@ func runCrashHist(c *core.Ctx, drv string, ch *crashHist, killEvery int) {
 	snaps, ok := crashPhase1(c, drv, dir, ch, true, -1)
 	if !ok {
 		return
+	}
+	if ch.nextFree > 0 {
+		c.Count("histories_in_a_data_file_around_or_beyond_4GiB", 1)
 	}
 	r := core.NewRand(core.SubSeed(c.Seed, "C02J", ch.idx))
 	var jobs []*crashJob
